@@ -28,7 +28,7 @@ func init() {
 		ID:    "C13",
 		Level: "exploration",
 		Rule: "symbols A,B,C (same schema, different rows) plus optionally D (same column names, Volume retyped) or E (one more column, i.e. longer records); symbol lists = every non-empty ordered subset of {A,B,C} of size <=3, each also with a missing symbol added, with D added, and '*'; " +
-			"column lists = every ordered tuple of length 0-3 over {Open,Close,Volume,Nope} (duplicates, reorderings, unknown names); fixed and variable buckets; " +
+			"column lists = every ordered tuple of length 0-3 (thorough 0-4) over {Open,Close,Volume,Nope} (duplicates, reorderings, unknown names); fixed and variable buckets; " +
 			"every combination goes through DataService.Query and is compared per symbol with the single-symbol query. a case = (record type, symbol list) x all 85 column lists; non-trivial = >=2 existing symbols named",
 		Assume:   []string{"UTC", "BackgroundSync=false", "an explicit error is accepted when the named symbols have different column types (documented limitation) or when every named symbol is missing"},
 		QuickMax: 5 * time.Minute, ThorMax: 15 * time.Minute,
@@ -215,7 +215,11 @@ func c13Run(c *mc.Ctx, s c13Spec) {
 	var rec func(cur []string)
 	rec = func(cur []string) {
 		colLists = append(colLists, append([]string{}, cur...))
-		if len(cur) == 3 {
+		maxCols := 3
+		if c.Thorough() {
+			maxCols = 4
+		}
+		if len(cur) == maxCols {
 			return
 		}
 		for _, n := range c13Cols {
